@@ -34,6 +34,15 @@ TEXTS = {
         "note": TB,
         "technique": 'Lean 4 proof (handler-level, all fault plans) + co-simulation with a per-action unfinished-run counter',
     },
+    'C20': {
+        "text": "Kernel-checked over the scheduler model (cron instants as a parameter, so for every specification): a run is created only when a timer was armed and its deadline has passed; the deadline armed is the first cron instant strictly after the creation of the latest run "
+                "(or after the reading instant when there is none); nothing is created while the filter answers false, the previous run is unfinished or the deadline has not passed; and for EVERY sequence of iterations, non-decreasing clock readings, filter answers, completions and role losses "
+                "there is a cron instant between any two runs the scheduler created (at most one run per tick; invariant + induction over the operation sequence). Tie: sim-schedule runs the real Workflow.Schedule as a gated process of the simulator for 8 cron specifications "
+                "(every minute, steps, hourly, daily, monthly, lists/ranges/weekdays), starts around boundaries, clock advances from 1 s to 40 days, filter flips, run completions by the real processes, role losses; every armed deadline and iteration outcome is compared with the model, "
+                "an oracle from the property text checks each created run (not early, one per tick, filter, unfinished, initial value, creation instant), Schedule must end with Stop, invalid specifications and a workflow that is not running must be rejected at once without starting anything.",
+        "note": TB + "Cron arithmetic itself (robfig/cron) is external and trusted.",
+        "technique": "Lean 4 proof (invariant over all operation sequences of the scheduler model, cron instants abstract) + co-simulation of Workflow.Schedule under the gated simulator clock",
+    },
     'C11': {
         "text": "Kernel-checked over the engine model: losing the role changes no run, outbox entry, stream entry, cursor, timer or error counter and no other process (for every parking state and process kind) and sends the process back to asking for its role with its receiver closed; "
                 "a failing operation never ends the process (back-off, or the role again when the lease is gone) and from back-off it only asks for the role again; no parking state is a dead end (after a finite wait a step is enabled, or the process idles at an empty stream). "
@@ -124,7 +133,7 @@ TEXTS = {
 }
 
 NOT_APPLICABLE = {p: "check under construction in this session; will be claimed once its theorems and tie exist" for p in
-                  ["C01", "C20"]}
+                  ["C01"]}
 
 NOTES = ("One engine: Lean 4 model + theorems, regenerated facts (T1/T2), co-simulation (T3). ./check <id> quick|thorough; ./check replay <path>. "
          "known-findings.json lists genuine defects that are recorded rather than repaired.")
